@@ -11,7 +11,7 @@ if [ "${TRY_IN_REPO:-}" = 1 ]; then
   cd /verif
   git -C /repo diff --quiet || { echo "/repo has uncommitted changes; refusing"; exit 2; }
   git -C /repo apply "$PATCH" || { echo "patch does not apply"; exit 2; }
-  for id in "$@"; do ./check $id $TIER 2>&1 | cut -c1-400 | tail -4; done
+  for id in "$@"; do ./check $id $TIER 2>&1 | cut -c1-300 | grep -E "^C[0-9]+ (quick|thorough):|^VIOLATION|harness|error" | head -8; done
   git -C /repo checkout -- .
   git -C /repo status --short | grep -v snap.new
   exit 0
@@ -24,5 +24,5 @@ rsync -a --delete --exclude target --exclude .lake --exclude .scratch --exclude 
 sed -i "s#path = \"/repo\"#path = \"$T/repo\"#" $T/verif/harness/Cargo.toml
 git -C $T/repo apply "$PATCH" || { echo "patch does not apply"; exit 2; }
 cd $T/verif
-for id in "$@"; do VERIF_REPO=$T/repo ./check $id $TIER 2>&1 | cut -c1-400 | tail -4; done
+for id in "$@"; do VERIF_REPO=$T/repo ./check $id $TIER 2>&1 | cut -c1-300 | grep -E "^C[0-9]+ (quick|thorough):|^VIOLATION|harness|error" | head -8; done
 git -C $T/repo checkout -q -- .
